@@ -396,16 +396,16 @@ fn views_for<T: Elem>(maxlen: usize, r: &mut ViewResult) {
             fail("NULL+0 DiplomatSlice deref not empty".into());
         }
         let s: &[T] = v.into();
-        if !s.is_empty() || std::hint::black_box(s.as_ptr() as usize) == 0 {
-            fail("NULL+0 DiplomatSlice -> &[T] not a valid empty slice".into());
+        if !s.is_empty() || std::hint::black_box(s.as_ptr() as usize) == 0 || std::hint::black_box(s.as_ptr() as usize) % std::mem::align_of::<T>() != 0 {
+            fail("NULL+0 DiplomatSlice -> &[T] not a valid empty slice (null or misaligned)".into());
         }
         let mut v: DiplomatSliceMut<T> = unsafe { std::mem::transmute(Raw::<T> { ptr: std::ptr::null(), len: 0 }) };
         if !(&*v).is_empty() || !(&mut *v).is_empty() {
             fail("NULL+0 DiplomatSliceMut deref not empty".into());
         }
         let s: &mut [T] = v.into();
-        if !s.is_empty() || std::hint::black_box(s.as_ptr() as usize) == 0 {
-            fail("NULL+0 DiplomatSliceMut -> &mut [T] not a valid empty slice".into());
+        if !s.is_empty() || std::hint::black_box(s.as_ptr() as usize) == 0 || std::hint::black_box(s.as_ptr() as usize) % std::mem::align_of::<T>() != 0 {
+            fail("NULL+0 DiplomatSliceMut -> &mut [T] not a valid empty slice (null or misaligned)".into());
         }
         let mut v: DiplomatOwnedSlice<T> = unsafe { std::mem::transmute(Raw::<T> { ptr: std::ptr::null(), len: 0 }) };
         if !(&*v).is_empty() || !(&mut *v).is_empty() {
@@ -414,6 +414,11 @@ fn views_for<T: Elem>(maxlen: usize, r: &mut ViewResult) {
         let b: Box<[T]> = v.into();
         if !b.is_empty() {
             fail("NULL+0 DiplomatOwnedSlice -> Box<[T]> not empty".into());
+        }
+        // an empty Box / reference still has to be non-null and aligned for T
+        let bp = std::hint::black_box(b.as_ptr() as usize);
+        if bp == 0 || bp % std::mem::align_of::<T>() != 0 {
+            fail(format!("NULL+0 DiplomatOwnedSlice -> Box<[T]> points at {bp:#x}: null or misaligned for an element of alignment {}", std::mem::align_of::<T>()));
         }
         drop(b);
         let v: DiplomatOwnedSlice<T> = unsafe { std::mem::transmute(Raw::<T> { ptr: std::ptr::null(), len: 0 }) };
